@@ -152,6 +152,49 @@ def run(ctx, tier):
                 r_gate.inst('%s: empty roadmap => UnsampledStateSpace before any access' % b.path, ok=not probs, site=b.loc(0))
                 for o, pr in enumerate(dict.fromkeys(probs)):
                     r_gate.violations.append(Violation('C08', 'C08.gates', b.path, 'unsampled', pr, loc=b.loc(0), ordinal=o))
+        # ---- installers store what they are given, on every path (the most recently installed problem is the one answered)
+        ftys = {f['name']: f['ty'] for f in p['fields']}
+        n_inst = 0
+        for b in p['methods']:
+            if b.name == 'new':
+                continue
+            fn = ctx.fn(b)
+            for j in range(2, b.arg_count + 1):
+                pty = b.local_ty(j)
+                if not (pty.startswith('std::sync::Arc<') and ('ProblemDefinition<' in pty or 'StateValidityChecker<' in pty)):
+                    continue
+                kind = 'ProblemDefinition<' if 'ProblemDefinition<' in pty else 'StateValidityChecker<'
+                tgt = [F for F in opt_fields if ftys[F].startswith('std::option::Option<std::sync::Arc<') and kind in ftys[F]]
+                n_inst += 1
+                probs = []
+                if len(tgt) != 1:
+                    probs.append('no Option field of type %s to install parameter %d into' % (pty, j))
+                else:
+                    F = tgt[0]
+                    sites = P.install_sites(fn, F)
+                    good = set()
+                    for s in sites:
+                        v = strip_clone(s['value']) if s['value'] is not None else None
+                        from_param = v is not None and bool(v) and all(n[0] == 'param' and n[1] == j for n in v)
+                        if s['kind'] == 'conditional':
+                            probs.append('self.%s is installed with get_or_insert (only when nothing was installed before): a later '
+                                         '%s keeps the previous value and solve answers the old problem' % (F, b.name))
+                        elif not from_param:
+                            probs.append('self.%s is set to %s, not to the %s parameter' % (F, fmt_terms(s['raw'] or frozenset())[:50], b.local_name(j)))
+                        else:
+                            good.add(s['block'])
+                    if not sites:
+                        probs.append('parameter %s is never stored into self.%s' % (b.local_name(j), F))
+                    elif good:
+                        r = fn.reachable(0, stop=frozenset(good))
+                        if any(rb in r and rb not in good for rb in fn.return_blocks()):
+                            probs.append('self.%s is not stored on every path through %s' % (F, b.name))
+                r_init.inst('%s installs its %s parameter into the planner on every path' % (b.path, b.local_name(j)), ok=not probs, site=b.loc(0))
+                for o, pr in enumerate(dict.fromkeys(probs)):
+                    r_init.violations.append(Violation('C08', 'C08.init', b.path, 'install:%s' % b.local_name(j), pr, loc=b.loc(0), ordinal=o))
+        if n_inst < 2:
+            r_init.violations.append(Violation('C08', 'C08.init', p['adt'], 'install-floor',
+                                               'only %d installed parameters found in %s (floor 2: problem definition and validity checker)' % (n_inst, p['name'])))
         # ---- init typestate
         for b in P.planner_bodies(p):
             fn = ctx.fn(b)
@@ -180,7 +223,7 @@ def run(ctx, tier):
                         if src['l'] == 1 and sn[:1] and sn[0] in opt_fields and len(sn) == 1 and b.name != 'new':
                             r_init.violations.append(Violation('C08', 'C08.init', b.path, 'move:' + sn[0], 'self.%s is moved out' % sn[0], loc=b.loc(bi, si)))
             for bi, t in b.calls():
-                if t['func'].get('path') in ('std::option::Option::<T>::take', 'std::mem::take', 'std::mem::replace', 'std::option::Option::<T>::replace'):
+                if t['func'].get('path') in ('std::option::Option::<T>::take', 'std::mem::take', 'std::mem::replace'):
                     pl = t['args'][0].get('move') or t['args'][0].get('copy')
                     idt = fn.place_terms(pl, (bi, fn.nstmts(bi)), mut_kills=False)
                     for n in idt:
